@@ -3,6 +3,7 @@ package nasType
 import (
 	"bytes"
 	"encoding/binary"
+	"fmt"
 	"io"
 )
 
@@ -167,6 +168,9 @@ func parseQoSFlowParameterList(buf *bytes.Buffer, number uint8) (QoSFlowParamete
 		}
 
 		parameter := newQoSFlowParameters(parameterID)
+		if parameter == nil {
+			return nil, fmt.Errorf("QoS flow parameter identifier[%d] unknown", parameterID)
+		}
 
 		if err := parameter.UnmarshalBinary(buf.Next(int(parameterLen))); err != nil {
 			return nil, err
